@@ -291,6 +291,14 @@ class QintImp(int, Qtype):
         if not issubclass(tright[0], Qtype):
             raise TypeErrorException(tright[0], Qtype)
 
+        # The identity above holds only for a power of two divisor
+        if cls.is_const(tright):
+            divisor = cast(int, cast(Qtype, tright[0]).from_bool(tright[1]))
+            if divisor <= 0 or (divisor & (divisor - 1)) != 0:
+                raise Exception(
+                    f"Mod is supported only for power of two divisors: {divisor}"
+                )
+
         tval = tright[0].sub(tright, tright[0].const(1))
         return tleft[0].bitwise_and(tleft, tval)
 
